@@ -362,7 +362,7 @@ def transport_reviewed(repo: Repo, mr) -> dict:
     out["OverflowError|KNXIPHeader.to_knx|self.total_length.to_bytes(2, 'big')"] = (wire, _memo(lambda: fcp(repo) and wire_range_ok(repo, mr, hdr, "total_length", 2)))
     out["OverflowError|_IPSecureTransportLayer.decrypt_frame|encrypted_frame.body.secure_session_id.to_bytes(2, 'big')"] = (wire, _memo(lambda: fcp(repo) and wire_range_ok(repo, mr, sw, "secure_session_id", 2)))
     out["OverflowError|SecureSequenceTimer.verify_timer_notify_mac|timer_notify.timer_value.to_bytes(6, 'big')"] = (wire, _memo(lambda: fcp(repo) and wire_range_ok(repo, mr, tn, "timer_value", 6)))
-    out["OverflowError|_IPSecureTransportLayer.decrypt_frame|len(dec_frame).to_bytes(2, 'big')"] = ("dec_frame has the length of the wrapper's encrypted_data, a slice of a received frame whose total length is a 16-bit field", _memo(lambda: fcp(repo)))
+    out["OverflowError|_IPSecureTransportLayer.decrypt_frame|len($0).to_bytes(2, 'big')"] = ("dec_frame has the length of the wrapper's encrypted_data, a slice of a received frame whose total length is a 16-bit field", _memo(lambda: fcp(repo)))
     out["OverflowError|calculate_message_authentication_code_cbc|len(additional_data).to_bytes(2, 'big')"] = ("every caller passes a concatenation of fixed-size header fields and identifiers (well below 65536 octets)", None)
     out["AssertionError|_IPSecureTransportLayer.decrypt_frame|assert isinstance(encrypted_frame.body, SecureWrapper)"] = ("every call of decrypt_frame is dominated by isinstance(frame.body, SecureWrapper)", _memo(lambda: decrypt_callers_narrow(repo)))
     out["ValueError|KNXIPTransport.unregister_callback|self.callbacks.remove(callb)"] = ("every unregister passes a handle that is registered: the one register_callback just returned, or a slot tested non-empty before and reset to None right after that only holds such handles", _memo(lambda: unregister_idiom(repo)))
@@ -636,7 +636,7 @@ def run(chk: Check, repo: Repo) -> None:
                             n += 1
                             ok = ok and not c.args and not any(kw.arg == "maxsize" for kw in c.keywords)
                 return ok and n > 0
-            reviewed[f"QueueFull|{m.qualname}|queue.put_nowait(gateway)"] = ("the scanner creates its queues unbounded (asyncio.Queue() without maxsize)", qv)
+            reviewed[f"QueueFull|{m.qualname}|queue.put_nowait(…"] = ("the scanner creates its queues unbounded (asyncio.Queue() without maxsize)", qv)
         check_entry(chk, mr, m, (), ctx=k, label=f"{m.qualname}@{k.name}", reviewed=reviewed)
         definite_assignment(chk, m)
     chk.ob("no-recursion", tcp.site(), not (mr.recursive & {tcp.ref, udp.ref}) and not any(call_name(c) == "self.data_received_callback" for c in calls(tcp.node)) and not any(call_name(c) == "self.data_received_callback" for c in calls(udp.node)),
